@@ -241,6 +241,28 @@ theorem lz_roundtrip_exact (mm : Nat) (ref tgt : List Nat) (hmm : lzHashingStep 
 
 example : lzHashingStep ≤ 5 ∧ lzHashingStep ≤ 32 := by decide
 
+/-- **The encoding determines the target.** Against one reference and with one minimum match length,
+    two non-empty targets with the same encoding are the same target — for any candidate suppliers,
+    even two different ones (e.g. two builds whose indexes resolve collisions differently). This is
+    what lets equal delta bytes inside a pack be stored once. -/
+theorem lz_encode_injective (S S' : UInt64 → List Nat) (mm : Nat) (ref t t' enc : List Nat)
+    (hc : codesOK t) (hc' : codesOK t') (hne : t ≠ []) (hne' : t' ≠ [])
+    (h : encode S mm ref t = some enc) (h' : encode S' mm ref t' = some enc) : t = t' := by
+  have h1 := lz_roundtrip S mm ref t enc hc hne h
+  rw [lz_roundtrip S' mm ref t' enc hc' hne' h'] at h1
+  exact (Option.some.inj h1).symm
+
+/-- … in particular for the real encoder. -/
+theorem lz_encode_injective_exact (mm : Nat) (ref t t' : List Nat) (hmm : lzHashingStep ≤ mm)
+    (hc : codesOK t) (hc' : codesOK t') (hne : t ≠ []) (hne' : t' ≠ [])
+    (h : encodeExact mm ref t = encodeExact mm ref t') : t = t' := by
+  obtain ⟨enc, he, _⟩ := lz_roundtrip_exact mm ref t hmm hc hne
+  have he' : encodeExact mm ref t' = some enc := by rw [← h]; exact he
+  rw [encodeExact_eq] at he he'
+  exact lz_encode_injective _ _ mm ref t t' enc hc hc' hne hne' he he'
+
+example : codesOK [0, 1, 3, 3, 0, 1, 2, 3, 2, 2] ∧ codesOK [30, 2] := by decide
+
 /-- Non-vacuity, on the real index: reference `ACGTACGTGG`, target `ACTTACGTGG`, min-match 5. The run
     takes the skip-1 k-mer path, emits four literals, finds the match at `h_pos = 4` with a backward
     extension of 1 (one literal popped), rewrites one literal to `!` under the scan bound, and
